@@ -13,7 +13,7 @@ rundemo() { # $1 = build dir
     g++ -std=gnu++17 -O1 -fopenmp -I$wd/include -I$wd/lib/primesieve/include -I$wd/src $wd/_seed/demo.cpp $wd/$1/libprimecount.a $wd/$1/lib/primesieve/libprimesieve.a -o $wd/$1/demo_bin 2>>$log || { echo "demo compile failed" >>$log; return 99; }
     (cd $wd && timeout 300 $wd/$1/demo_bin $wd/$1/primecount) >>$log 2>&1; return $?
   else
-    (cd $wd && BUILD=$wd/$1 timeout 300 bash $wd/_seed/demo.sh $wd/$1) >>$log 2>&1; return $?
+    (cd $wd && BUILD=$wd/$1 timeout 300 bash $wd/_seed/demo.sh $wd/$1/primecount) >>$log 2>&1; return $?
   fi
 }
 git -C $wd apply --check -R $wd/_seed/patch.diff 2>/dev/null || { git -C $wd checkout -- . ; git -C $wd apply $wd/_seed/patch.diff; }
